@@ -28,7 +28,6 @@ def main():
             fp = check.extract(r, "all")
             got = sm.run_all(Facts(fp), r)
             sm.fresh_modules()
-            os.remove(fp)
             new = {k: sorted(x for x in v if x not in base[k]) for k, v in got.items()}
             new = {k: v for k, v in new.items() if v}
             res[name] = {"silent": not new, "alarms": new}
